@@ -149,6 +149,11 @@ def rule_split_agreement(ck: Check, rule: str) -> None:
             else:
                 ck.violated(rule, construct, "a transaction list is split at %s; every sibling site uses [0] for the reward and [1:] for the rest"
                             % desc, where)
+    # sites inside a helper that was extracted later belong to the recorded functions that use the helper
+    for fn in [f for f in per_func if ck.walker.transparent(f)]:
+        ds = per_func.pop(fn)
+        for caller in functions_mentioning(ck, fn.split(".")[-1] + "("):
+            per_func.setdefault(caller.qualname, []).extend(ds)
     for fn, ds in per_func.items():
         if "[0]" in ds and "[1:]" not in ds and fn.split(".")[-1] not in ("validate_coinbase_transaction_by_itself",):
             # a function that singles out the reward must also process the rest
